@@ -283,14 +283,15 @@ U2Str(s) == [items |-> U2InfoItems(Ustr("name", s.enc, s.atoms), F("numplayers",
 \* lists
 \* num: what the player count of the server-info reply counts: "all" listed entries, or the "humans" only (a server whose count
 \* leaves the bots out; its players reply then fits one datagram - the count is all a client has to know when to stop reading)
-U2ListShapes == [rules : Counts, repeat : BOOLEAN, mutators : {0, 2}, players : Counts, bots : {0, 1}, datagrams : 1 .. 3, pw : {"none", "true", "false"},
+\* repeat: a rule key sent a second time with another value ("other") or with the SAME value again ("same": both count)
+U2ListShapes == [rules : Counts, repeat : {"no", "other", "same"}, mutators : {0, 2}, players : Counts, bots : {0, 1}, datagrams : 1 .. 3, pw : {"none", "true", "false"},
                  num : {"all", "humans"}]
-U2ListOk(s) == (s.repeat => s.rules > 0) /\ (s.num = "humans" => (s.bots > 0 /\ s.players <= 3))
+U2ListOk(s) == (s.repeat # "no" => s.rules > 0) /\ (s.num = "humans" => (s.bots > 0 /\ s.players <= 3))
 U2Reported(s) == IF s.num = "humans" THEN s.players ELSE s.players + s.bots
 \* rule entries in wire order: (key, value) pairs; a repeated key contributes a second value to the same key
 RuleEntries(s) ==
   [i \in 1 .. s.rules |-> <<"rk" \o X(i), "rv" \o X(i)>>]
-  \o If(s.repeat, <<<<"rk1", "rvr">>>>)
+  \o If(s.repeat # "no", <<<<"rk1", IF s.repeat = "same" THEN "rv1" ELSE "rvr">>>>)
 U2RuleItems(s) ==
   Cat([i \in 1 .. s.rules |-> <<[k |-> "f", f |-> "rk" \o X(i), ty |-> "ustr", enc |-> "any", atoms |-> <<>>, uniq |-> "rulekeys",
                                  reserved |-> <<"mutator", "Mutator", "GamePassword">>, min |-> 1], UstrPlain("rv" \o X(i))>>])
@@ -303,7 +304,7 @@ U2(s) ==
                  entries |-> [i \in 1 .. s.rules |-> <<[k |-> "f", f |-> "rk" \o X(i), ty |-> "ustr", enc |-> "any", atoms |-> <<>>,
                                                        uniq |-> "rulekeys", reserved |-> <<"mutator", "Mutator", "GamePassword">>, min |-> 1],
                                                       UstrPlain("rv" \o X(i))>>]
-                             \o If(s.repeat, << <<[k |-> "ref", f |-> "rk1"], UstrPlain("rvr")>> >>)
+                             \o If(s.repeat # "no", << <<[k |-> "ref", f |-> "rk1"], IF s.repeat = "same" THEN [k |-> "ref", f |-> "rv1"] ELSE UstrPlain("rvr")>> >>)
                              \o [i \in 1 .. s.mutators |-> <<[k |-> "ustrlit", s |-> IF i = 1 THEN "Mutator" ELSE "mutator"], [k |-> "f", f |-> "mut" \o X(i), ty |-> "ustr", enc |-> "any", atoms |-> <<>>, uniq |-> "mutators"]>>]
                              \o If(s.pw # "none", << <<[k |-> "ustrlit", s |-> "GamePassword"], [k |-> "ustrlit", s |-> IF s.pw = "true" THEN "True" ELSE "false"]>> >>)],
       players |-> [head |-> U2Head(2),
@@ -317,7 +318,7 @@ U2(s) ==
               \o <<Ec(<<"server_info", "num_players">>, U2Reported(s)), Ec(<<"server_info", "password">>, s.pw = "true"), Eo(<<"mutators_and_rules", "rules">>), El(<<"mutators_and_rules", "mutators">>),
                    El(<<"players", "players">>), El(<<"players", "bots">>)>>
               \o [i \in 1 .. s.rules |-> [p |-> <<"mutators_and_rules", "rules">>, tr |-> "listentry", key |-> "rk" \o X(i), src |-> "rv" \o X(i)]]
-              \o If(s.repeat, <<[p |-> <<"mutators_and_rules", "rules">>, tr |-> "listentry", key |-> "rk1", src |-> "rvr"]>>)
+              \o If(s.repeat # "no", <<[p |-> <<"mutators_and_rules", "rules">>, tr |-> "listentry", key |-> "rk1", src |-> IF s.repeat = "same" THEN "rv1" ELSE "rvr"]>>)
               \o If(s.pw # "none", <<[p |-> <<"mutators_and_rules", "rules", "GamePassword">>, tr |-> "const", v |-> <<IF s.pw = "true" THEN "True" ELSE "false">>]>>)
               \o [i \in 1 .. s.mutators |-> [p |-> <<"mutators_and_rules", "mutators">>, tr |-> "append", src |-> "mut" \o X(i)]]
               \o Cat([i \in 1 .. s.players |-> <<E(<<"players", "players", i - 1, "id">>, "pid" \o X(i)), E(<<"players", "players", i - 1, "name">>, "pname" \o X(i)),
